@@ -50,7 +50,7 @@ func scenario(k int) {
 	spec := dl.GenSpec(r, k, "c10")
 	id := fmt.Sprintf("c10-%d", k)
 	run.CaseStart(id + " " + spec.Describe())
-	defer run.CaseEnd(id + " " + spec.Describe())
+	defer run.CaseEndDeferred(id + " " + spec.Describe())
 	dir := fmt.Sprintf("%s/s%d", run.Work, k)
 	os.MkdirAll(dir, 0o755)
 	defer os.RemoveAll(dir)
